@@ -332,9 +332,31 @@ func runInner(c Case) (res vt.Result, fail *vt.Fail) {
 	defer src.Close()
 	src.TarReproducible = c.Reproducible
 	var layers []ocispec.Descriptor
-	for _, it := range c.Items {
-		d, err := src.Add(ctx, it.Name, it.MT, "")
-		if err != nil {
+	var firstOK *ocispec.Descriptor
+	for ii, it := range c.Items {
+		if c.StaleDst == (ii%2 == 0) {
+			// a first attempt that fails on the caller's side - the path does not
+			// exist (yet), or the context is gone - must not take the name
+			var ferr error
+			var fd ocispec.Descriptor
+			if it.IsDir && ii%2 == 1 {
+				cctx, cancel := context.WithCancel(ctx)
+				cancel()
+				fd, ferr = src.Add(cctx, it.Name, it.MT, "")
+			} else {
+				_, ferr = src.Add(ctx, it.Name, it.MT, filepath.Join(srcDir, "no-such-dir", "missing"))
+			}
+			if ferr != nil {
+				res.Classes = append(res.Classes, "add-retried-after-a-failed-attempt")
+			} else {
+				firstOK = &fd // (a cancelled context was not noticed: the name is taken, rightly)
+			}
+		}
+		var d ocispec.Descriptor
+		var err error
+		if firstOK != nil {
+			d, firstOK = *firstOK, nil
+		} else if d, err = src.Add(ctx, it.Name, it.MT, ""); err != nil {
 			return res, vt.Failf("C12/add-failed", "Add(%q): %v", it.Name, err)
 		}
 		// descriptor truth
